@@ -65,6 +65,16 @@ MPI_OPERATION(p2p_bufs)
   o["rc"] = 0;
 }
 
+/* {"op":"p2p_fill","bufs":[names],"fill":byte}: overwrites whole buffers (a sender reusing its buffer once the send is complete) */
+MPI_OPERATION(p2p_fill)
+{
+  for (auto const& n : a.at("bufs")) {
+    auto& b = Rank::find(R.bufs, n.get<std::string>(), "buffer");
+    memset(b.data() + GUARD, a.value("fill", 0), b.size() - 2 * GUARD);
+  }
+  o["rc"] = 0;
+}
+
 /* {"op":"crcs","bufs":[names],"slack":bytes?} -> "res": [[size, crc32 of the first size-slack bytes, guards_ok, hex of the first 8 bytes,
  *  crc32 of the last `slack` bytes], ...] */
 MPI_OPERATION(crcs)
